@@ -299,13 +299,15 @@ impl CachedTimeZone {
         #[cfg(jiff_verif)]
         crate::verif::point("cc.new.open");
         let file = File::open(path).map_err(|e| Error::io(e).path(path))?;
+        // The last modified time must be read *before* the data. See the
+        // comment in the corresponding zoneinfo routine.
+        #[cfg(jiff_verif)]
+        crate::verif::point("cc.new.stat");
+        let last_modified = util::fs::last_modified_from_file(path, &file);
         let db = ConcatenatedTzif::open(&file)?;
         let Some(tz) = db.get(query, scratch1, scratch2)? else {
             return Ok(None);
         };
-        #[cfg(jiff_verif)]
-        crate::verif::point("cc.new.stat");
-        let last_modified = util::fs::last_modified_from_file(path, &file);
         let expiration = Expiration::after(ttl);
         Ok(Some(CachedTimeZone { tz, expiration, last_modified }))
     }
